@@ -318,7 +318,7 @@ fn report_violation(rep: &mut Report, prefix: &[Op], ops: &[Op], r: (String, Str
 }
 
 pub fn run(ctx: &Ctx) -> Report {
-    let seq_count = ctx.size(400_000, 60_000_000) as usize;
+    let seq_count = ctx.size(1_500_000, 60_000_000) as usize;
     let seed = ctx.seed;
     // items: 256 (single ops per address) + 256 (pairs per first address) + seq_count/100 batches
     let batches = (seq_count + 99) / 100;
